@@ -4,7 +4,7 @@
    Vocabulary (defined in Model.v / Proofs.v):
      val = a configuration value: VNone | VBool | VInt | VFloat (exact
      fraction) | VStr (code points) — stored, logged and handed to the callback,
-     never computed with; None is a value, distinct from "no such gene/entry";
+     computed with only by the random mutations of replicate; None is a value, distinct from "no such gene/entry";
      world = list genome, op = (index of the genome the call is made on, gop);
      run W ops = the lineage after the calls; stored G n = _genes[n].value;
      vals G = the name->value map in dict order; ghash G = its sorted form
@@ -17,7 +17,13 @@
      value n had at that moment; cb_denies c = c approves nothing (or is
      absent); ops_for i ops = the calls of ops addressed to genome i;
      wf G = gene names are unique (the table is a dict; invariant, see
-     c20_wf_invariant); skel e = the gene without its value. *)
+     c20_wf_invariant); skel e = the gene without its value;
+     g_replicate G muts inh = the child up to and including the specified
+     mutations; g_replicate_full G muts inh ds = the child replicate returns:
+     the former followed, when mutation_rate > 0, by the random-mutation loop
+     with random.random() returning the numbers ds (in 64ths);
+     apply_random C props = C after mutate(n, v, "random_mutation") for each
+     (n, v) of props in order. *)
 From Coq Require Import ZArith List Bool.
 From Verif Require Import C20.Model C20.Proofs.
 Import ListNotations.
@@ -128,9 +134,9 @@ Print Assumptions c20_log_append_only.
 (* ---- 3. replication never alters the parent; no aliasing ---------------- *)
 
 Theorem c20_replicate_preserves_parent :
-  forall W i G muts inh W' r,
-    nth_error W i = Some G -> step W (i, OReplicate muts inh) = (W', r) ->
-    W' = W ++ [g_replicate G muts inh] /\ r = RetChild (length W) /\
+  forall W i G muts inh ds W' r,
+    nth_error W i = Some G -> step W (i, OReplicate muts inh ds) = (W', r) ->
+    W' = W ++ [g_replicate_full G muts inh ds] /\ r = RetChild (length W) /\
     forall j Gj, nth_error W j = Some Gj -> nth_error W' j = Some Gj.
 Proof. exact replicate_preserves_proof. Qed.
 Print Assumptions c20_replicate_preserves_parent.
@@ -146,45 +152,72 @@ Print Assumptions c20_lineage_isolation.
 
 (* ---- 4. the child differs only where a mutation was authorised ---------- *)
 
-(* same genes in the same order with the same type/description/required/
-   default expression; same allow_mutations and callback *)
+(* the child replicate returns (for every mutation_rate and whatever
+   random.random() returns): same genes in the same order with the same
+   type/description/required/default expression; same allow_mutations,
+   callback and mutation_rate; the log of the specified mutations is a prefix
+   of its log *)
 Theorem c20_child_same_genes :
-  forall G muts inh, wf G ->
-    let c := g_replicate G muts inh in
+  forall G muts inh ds, wf G ->
+    let c := g_replicate_full G muts inh ds in
     allow c = allow G /\ cb c = cb G /\ generation c = generation G + 1 /\
-    parent c = Some (ghash G) /\ wf c /\
-    map skel (tbl c) = map skel (tbl G).
-Proof. exact child_facts_proof. Qed.
+    parent c = Some (ghash G) /\ mrate c = mrate G /\ wf c /\
+    map skel (tbl c) = map skel (tbl G) /\
+    exists l, mlog c = mlog (g_replicate G muts inh) ++ l.
+Proof. exact child_full_facts_proof. Qed.
 Print Assumptions c20_child_same_genes.
 
-(* a value that differs from the parent's comes from a replication mutation
-   of this call on that gene that passed the gate (allow_mutations or the
-   callback's approval of that change) and is logged approved in the child *)
+(* a value that differs from the parent's comes from a mutation of this call
+   on that gene — a specified replication mutation or a random one — that
+   passed the gate (allow_mutations or the callback's approval of that
+   change) and is logged approved in the child *)
 Theorem c20_child_differs_only_authorised :
-  forall G muts inh n, wf G ->
-    let c := g_replicate G muts inh in
+  forall G muts inh ds n, wf G ->
+    let c := g_replicate_full G muts inh ds in
     stored c n <> stored G n ->
-    exists m, In m (mlog c) /\ authorised_entry (allow G) (cb G) muts n m.
-Proof. exact child_differs_proof. Qed.
+    exists m, In m (mlog c) /\ authorised_entry_full (allow G) (cb G) muts n m.
+Proof. exact child_full_differs_proof. Qed.
 Print Assumptions c20_child_differs_only_authorised.
 
 (* with allow_mutations off the child's values are exactly the parent's
    overwritten by the callback-approved entries of the child's own log *)
 Theorem c20_child_values_replay :
-  forall G muts inh, wf G -> allow G = false ->
-    let c := g_replicate G muts inh in
+  forall G muts inh ds, wf G -> allow G = false ->
+    let c := g_replicate_full G muts inh ds in
     Forall (entry_ok (cb G)) (mlog c) /\
     forall n v, stored G n = Some v ->
       stored c n = Some (replay (mlog c) n v) /\ origs n v (mlog c).
-Proof. exact child_replay_proof. Qed.
+Proof. exact child_full_replay_proof. Qed.
 Print Assumptions c20_child_values_replay.
 
 Theorem c20_child_expression :
-  forall G muts, wf G ->
-    map e_level (tbl (g_replicate G muts true)) = map e_level (tbl G) /\
-    map e_level (tbl (g_replicate G muts false)) = map (fun e => g_default (e_gene e)) (tbl G).
+  forall G muts ds, wf G ->
+    map e_level (tbl (g_replicate_full G muts true ds)) = map e_level (tbl G) /\
+    map e_level (tbl (g_replicate_full G muts false ds)) = map (fun e => g_default (e_gene e)) (tbl G).
 Proof. exact child_levels_proof. Qed.
 Print Assumptions c20_child_expression.
+
+(* random mutations (mutation_rate > 0) reach the child only through mutate:
+   whatever the rate and whatever random.random() returns, the child is the
+   child of the specified mutations followed by calls of
+   mutate(gene, value, "random_mutation"), none when mutation_rate <= 0 *)
+Theorem c20_random_mutations_gated :
+  forall G muts inh ds,
+    exists props, g_replicate_full G muts inh ds = apply_random (g_replicate G muts inh) props /\
+                  (mrate G <= 0 -> props = []).
+Proof. exact replicate_full_props. Qed.
+Print Assumptions c20_random_mutations_gated.
+
+(* ... and a refused one is logged unapproved in the child *)
+Theorem c20_refused_random_logged :
+  forall C pre n v post old,
+    let C1 := apply_random C pre in
+    stored C1 n = Some old -> approved_by C1 n old v RRandom = false ->
+    let c := apply_random C (pre ++ (n, v) :: post) in
+    In (mkM n old v RRandom false) (mlog c) /\
+    exists l, mlog c = mlog C1 ++ mkM n old v RRandom false :: l.
+Proof. exact (r_refused_logged RRandom). Qed.
+Print Assumptions c20_refused_random_logged.
 
 (* ---- 5. express ---------------------------------------------------------- *)
 
@@ -267,6 +300,6 @@ Print Assumptions c20_rollback_never_silent.
 (* ---- the wf hypothesis is an invariant of every reachable lineage ------- *)
 
 Theorem c20_wf_invariant :
-  forall a c genes ops, Forall wf (run [init_genome a c genes] ops).
+  forall a c rate genes ops, Forall wf (run [init_genome_r a c rate genes] ops).
 Proof. exact wf_invariant_proof. Qed.
 Print Assumptions c20_wf_invariant.
